@@ -562,7 +562,8 @@ class C18(CheckBase):
             # the seams must have been used: an edit that never opened the simulated input, or that
             # produced an output without reading the simulated clock, ran outside the simulation
             opened = [p for p, m in fs.opens[nopens0:]]
-            if fs.abspath(st['cur']) not in opened:
+            deadlocked = isinstance(exc, RuntimeError) and 'dead-lock in the system under test' in str(exc)
+            if fs.abspath(st['cur']) not in opened and not deadlocked:
                 raise kernel.HarnessError('storage seam bypassed: %s did not open its input through geodepy.gnss.open (%s: %s)'
                                           % (kind, type(exc).__name__ if exc else 'returned', str(exc)[:200] if exc else ''))
             if status == 'ok' and not reads and not fault_fired:
@@ -750,7 +751,8 @@ class C18(CheckBase):
             else:
                 got = gnss.read_sinex_sites(st['cur'])
         except Exception as e:
-            if fs.abspath(st['cur']) not in [p for p, m in fs.opens[nopens0:]]:
+            deadlocked = isinstance(e, RuntimeError) and 'dead-lock in the system under test' in str(e)
+            if fs.abspath(st['cur']) not in [p for p, m in fs.opens[nopens0:]] and not deadlocked:
                 raise kernel.HarnessError('storage seam bypassed: %s did not open its input through geodepy.gnss.open (%s: %s)'
                                           % (kind, type(e).__name__, str(e)[:200]))
             log.add(kind, 'raised', type(e).__name__)
